@@ -1,0 +1,48 @@
+//go:build verif
+
+package main
+
+import (
+	"os"
+	"strconv"
+	"strings"
+	"sync/atomic"
+	"syscall"
+	"time"
+
+	"github.com/johannesboyne/gofakes3"
+)
+
+// With the "verif" build tag the server can be told to kill itself at the n-th
+// time a hook point is reached: VERIF_CRASH=<point>:<n>. VERIF_DELAY=<point>:<ms>
+// sleeps at a hook point instead. Used by the crash-consistency checks.
+func init() {
+	crashPoint, crashAt := "", int64(0)
+	if v := os.Getenv("VERIF_CRASH"); v != "" {
+		if i := strings.LastIndex(v, ":"); i > 0 {
+			crashPoint = v[:i]
+			crashAt, _ = strconv.ParseInt(v[i+1:], 10, 64)
+		}
+	}
+	delayPoint, delay := "", time.Duration(0)
+	if v := os.Getenv("VERIF_DELAY"); v != "" {
+		if i := strings.LastIndex(v, ":"); i > 0 {
+			delayPoint = v[:i]
+			ms, _ := strconv.ParseInt(v[i+1:], 10, 64)
+			delay = time.Duration(ms) * time.Millisecond
+		}
+	}
+	if crashPoint == "" && delayPoint == "" {
+		return
+	}
+	var hits int64
+	gofakes3.VerifSetHook(func(point string) {
+		if point == delayPoint {
+			time.Sleep(delay)
+		}
+		if point == crashPoint && atomic.AddInt64(&hits, 1) == crashAt {
+			syscall.Kill(os.Getpid(), syscall.SIGKILL)
+			select {} // never returns to the caller
+		}
+	})
+}
